@@ -185,7 +185,9 @@ def generate(streams: Streams, tier: str, index: int) -> dict:
                         "member": R(16)})
         elif k == "em_remove_overlapping":
             ops.append({"op": k, "em": R(16), "min_distance": rng.choice([0, 0, 1.0, -0.5, 50.0]),
-                        "grid": rng.random() < 0.3})
+                        "grid": rng.random() < 0.35,
+                        "grid_kind": rng.choice(["cart_periodic", "cart_periodic", "cart_open",
+                                                 "cart_mixed", "curvilinear"])})
         elif k in ("em_link", "em_clear"):
             ops.append({"op": k, "em": R(16)})
         elif k == "merge":
@@ -264,7 +266,22 @@ def _simple(x: float) -> bool:
     return abs(x) < 1024 and float(x * 64).is_integer()
 
 
-def _gap_cmp(c1: "Cell", c2: "Cell", md: float, period: float | None) -> str:
+def _gauss_nearest(x: np.ndarray, sigma: float) -> np.ndarray:
+    """Gaussian average along axis 0 with nearest-value continuation (own implementation; the
+    kernel is cut at 4 sigma like scipy's default)."""
+    n = len(x)
+    radius = int(4.0 * sigma + 0.5)
+    ks = np.arange(-radius, radius + 1)
+    w = np.exp(-0.5 * (ks / sigma) ** 2)
+    w /= w.sum()
+    out = np.zeros_like(x, dtype=float)
+    for i in range(n):
+        idx = np.clip(i + ks, 0, n - 1)
+        out[i] = np.tensordot(w, x[idx], axes=(0, 0))
+    return out
+
+
+def _gap_cmp(c1: "Cell", c2: "Cell", md: float, period) -> str:
     """Compare the surface distance of two droplets with `md`: 'lt', 'ge' or 'unknown'.
 
     Own metric (Euclidean, or minimum image in the periodic box [-period/2, period/2)^d).
@@ -278,11 +295,12 @@ def _gap_cmp(c1: "Cell", c2: "Cell", md: float, period: float | None) -> str:
     p2 = [float(v) for v in c2.rec["position"]]
     r1, r2 = c1.radius, c2.radius
     delta = []
-    for a, b in zip(p1, p2):
+    for ax, (a, b) in enumerate(zip(p1, p2)):
         d = a - b
-        if period is not None:
-            d = (d + period / 2) % period - period / 2
-            d = min(abs(d), period - abs(d))
+        per = period[ax] if isinstance(period, list) else period  # per axis, one for all, or none
+        if per is not None:
+            d = (d + per / 2) % per - per / 2
+            d = min(abs(d), per - abs(d))
         delta.append(d)
     gap = math.sqrt(sum(d * d for d in delta)) - (r1 + r2)
     if not math.isfinite(gap):
@@ -764,10 +782,25 @@ def run_op(M: Machine, step: int, op: dict) -> str | None:
         if len({c.dim for c in m.cells}) > 1:
             return "mixed dimensions"
         kw = {"min_distance": op["min_distance"]}
+        period = None
         if op["grid"] and m.cells:
-            from pde import CartesianGrid
+            from pde import CartesianGrid, CylindricalSymGrid, PolarSymGrid, SphericalSymGrid
             d = m.cells[0].dim
-            kw["grid"] = CartesianGrid([[-32, 32]] * d, 8, periodic=True)
+            gk = op.get("grid_kind", "cart_periodic")
+            if gk == "cart_open":
+                kw["grid"] = CartesianGrid([[-32, 32]] * d, 8, periodic=False)
+            elif gk == "cart_mixed":
+                per = [i % 2 == 0 for i in range(d)]
+                kw["grid"] = CartesianGrid([[-32, 32]] * d, 8, periodic=per)
+                period = [64.0 if q else None for q in per]
+            elif gk == "curvilinear" and d >= 2:
+                # grids with a symmetry: positions stay Cartesian, the metric is Euclidean
+                kw["grid"] = PolarSymGrid(48, 8) if d == 2 else (
+                    SphericalSymGrid(48, 8) if op["em"] % 2 else CylindricalSymGrid(48, [-32, 32], 8))
+            else:
+                kw["grid"] = CartesianGrid([[-32, 32]] * d, 8, periodic=True)
+                period = 64.0
+            M.cnt.inc(f"probe.remove_overlapping_grid_{gk}")
         before = list(list.__iter__(em))
         ok, res = sut(lambda: em.remove_overlapping(**kw))
         if not ok:
@@ -789,7 +822,6 @@ def run_op(M: Machine, step: int, op: dict) -> str | None:
         # list-model rule of "remove overlaps" (ties decided exactly, rounding-level cases skipped):
         # no surviving pair is closer than min_distance, and every removed member was closer
         # than min_distance to a member at least as large
-        period = 64.0 if "grid" in kw else None
         md = op["min_distance"]
         cells = m.cells
         keep = set(idx)
@@ -1405,7 +1437,9 @@ def _query(M: Machine, step: int, op: dict):
                 if not same_dim:
                     cnt.inc("probe.stats_mixed_dimensions")
                 incl = kind == "stats"
-                st = em.get_size_statistics(incl_vanished=incl)
+                # (the documented default counts vanished droplets)
+                st = em.get_size_statistics() if incl and op.get("perm_seed", 0) % 2 else \
+                    em.get_size_statistics(incl_vanished=incl)
                 use = [c for c in cells if incl or c.radius > 0]
                 if not cells:
                     use = []
@@ -1545,6 +1579,18 @@ def _query(M: Machine, step: int, op: dict):
                     want = np.array([c.rec["position"] for c in m.cells])
                     if traj.shape != want.shape or traj.tobytes() != want.tobytes():
                         bad("trajectory differs from member positions", "trajectory")
+                    sigma = [0.5, 1.0, 2.5][op.get("perm_seed", 0) % 3]
+                    if op.get("perm_seed", 0) % 4 == 0 and len(m.cells) >= 1:
+                        # a smoothed trajectory is the Gaussian average (width sigma frames,
+                        # nearest-value continuation at both ends) of the members' positions
+                        sm = tr.get_trajectory(smoothing=sigma)
+                        ref = _gauss_nearest(want.astype(float), sigma)
+                        if sm.shape != want.shape or not np.allclose(sm, ref, rtol=1e-9, atol=1e-9):
+                            bad(f"trajectory smoothed with sigma={sigma} is not the Gaussian average "
+                                "of the member positions", "trajectory_smoothed")
+                        if tr.get_trajectory().tobytes() != want.tobytes():
+                            bad("smoothing changed the trajectory returned afterwards", "trajectory")
+                        cnt.inc("queries.trajectory_smoothed")
                     radii = tr.get_radii()
                     if [float(x) for x in radii] != [c.radius for c in m.cells]:
                         bad("radii differ from member radii", "radii")
